@@ -23,7 +23,7 @@ RULE = ('verbatim / verbatim* environments (\\begin..\\end, and \\verbatim..\\en
         '\\verb and \\verb* with every printable non-letter delimiter; followed by text that must be processed normally; placed at top level and '
         'inside itemize/quote/center/a group. Mathematics: formulas of a grammar (letters, digits, operators, control words and symbols, '
         'scripts with braced or bare arguments, \\frac, \\sqrt[..], accents/fonts, {groups}, \\left..\\right with 14 delimiters, arrays with '
-        '\\hline, \\text/\\mbox/\\textbf boxes with nested inline math, user macros with 0-2 parameters; depth <= 4) in $ $, \\( \\), \\[ \\], '
+        '\\hline, \\text/\\mbox/\\textbf boxes with nested inline math, user macros with 0-2 parameters, with and without an optional first parameter (empty and non-empty default, called with and without it); depth <= 4) in $ $, \\( \\), \\[ \\], '
         'equation and inside \\textbf/\\emph/\\section/\\footnote arguments; written with insignificant blanks only (exact comparison of '
         'node.source with the Model) or with blanks/newlines anywhere (comparison blanks aside). '
         'Non-trivial = a verbatim/\\verb body of >= 3 characters with at least one special character, or a formula of >= 4 nodes.')
@@ -274,7 +274,7 @@ def impl_verb(case):
 # mathematics: surface syntax trees
 #   item: ['c', ch] | ['sp'] | ['w', name] | ['s', ch] | ['sup', arg] | ['sub', arg] | ['cmd', name, arg] | ['frac', name, arg, arg]
 #       | ['sqrt', E|None, arg] | ['grp', E] | ['lr', lname, d, E, rname, d] | ['arr', colspec, rows] | ['txt', name, T]
-#       | ['um', name, [E, ...]] | ['p', i]
+#       | ['um', name, [arg, ...], E|None (the optional first argument, for macros that have one)] | ['p', i]
 #   arg:  ['b', E] braced | ['t', item] one bare token (c / w / s)
 #   T items: ['c', ch] | ['sp'] | ['m', E] | ['tcmd', name, T] | ['tie']
 #   rows: list of [hline?, [cell E, ...]]
@@ -290,13 +290,23 @@ LDELIMS = [['c', '('], ['c', '['], ['c', '|'], ['c', '.'], ['c', '/'], ['s', '{'
            ['c', ')'], ['c', ']'], ['s', '}'], ['w', 'rangle']]
 ANGLE_DELIMS = [['c', '<'], ['c', '>']]
 LRNAMES = [('left', 'right'), ('left', 'right'), ('left', 'right'), ('bigl', 'bigr'), ('Bigl', 'Bigr'), ('biggl', 'biggr'), ('Biggl', 'Biggr')]
-USER = {  # name -> (number of parameters, body E)
+USER = {  # name -> (number of parameters, body E[, default E of the optional first parameter])
     'R': (0, [['cmd', 'mathbf', ['b', [['c', 'R']]]]]),
     'eps': (0, [['w', 'epsilon']]),
     'pair': (2, [['w', 'langle'], ['p', 1], ['c', ','], ['p', 2], ['w', 'rangle']]),
     'sq': (1, [['grp', [['p', 1]]], ['sup', ['b', [['c', '2']]]]]),
     'half': (1, [['frac', 'frac', ['b', [['p', 1]]], ['b', [['c', '2']]]]]),
+    # \newcommand{\norm}[2][]{\left\|#2\right\|_{#1}} : optional argument with an EMPTY default (a common idiom)
+    'norm': (2, [['lr', 'left', ['s', '|'], [['p', 2]], 'right', ['s', '|']], ['sub', ['b', [['p', 1]]]]], []),
+    'ang': (2, [['w', 'langle'], ['p', 2], ['w', 'rangle'], ['p', 1]], []),
+    # ... and with non-empty defaults
+    'pw': (2, [['grp', [['p', 2]]], ['sup', ['b', [['p', 1]]]]], [['c', '2']]),
+    'seq': (2, [['p', 2], ['sub', ['b', [['c', '1']]]], ['c', ','], ['w', 'ldots'], ['c', ','], ['p', 2], ['sub', ['b', [['p', 1]]]]], [['w', 'alpha'], ['c', 'n']]),
 }
+
+
+def has_opt(name):
+    return len(USER[name]) > 2
 
 
 def plain_latex(E):
@@ -311,8 +321,10 @@ def preamble():
     global USER_DEFS
     if USER_DEFS is None:
         defs = []
-        for name, (n, body) in sorted(USER.items()):
-            defs.append('\\newcommand{\\%s}%s{%s}' % (name, '[%d]' % n if n else '', plain_latex(body)))
+        for name, u in sorted(USER.items()):
+            n, body = u[0], u[1]
+            dflt = '[%s]' % plain_latex(u[2]) if len(u) > 2 else ''
+            defs.append('\\newcommand{\\%s}%s%s{%s}' % (name, '[%d]' % n if n else '', dflt, plain_latex(body)))
         USER_DEFS = ''.join(defs)
     return USER_DEFS
 
@@ -398,6 +410,8 @@ def pieces_item(it, rng):
         return [('cw', it[1]), ('gap',), ('x', '{')] + pieces_T(it[2], rng) + [('x', '}')]
     if k == 'um':
         o = [('cw', it[1])]
+        if len(it) > 3 and it[3] is not None:
+            o += [('gap',), ('x', '[')] + pieces_E(it[3], rng) + [('x', ']')]
         for a in it[2]:
             o += [('gap',)] + pieces_arg(a, rng)
         return o
@@ -473,6 +487,10 @@ def subst_item(it, args):
         return [k, it[1], subst_arg(it[2], args), subst_arg(it[3], args)]
     if k == 'grp':
         return [k, subst(it[1], args)]
+    if k == 'lr':
+        return [k, it[1], it[2], subst(it[3], args), it[4], it[5]]
+    if k == 'sqrt':
+        return [k, None if it[1] is None else subst(it[1], args), subst_arg(it[2], args)]
     return it
 
 
@@ -481,8 +499,11 @@ def expand_E(E):
     for it in E:
         k = it[0]
         if k == 'um':
-            n, body = USER[it[1]]
-            out += expand_E(subst(body, [expand_E(arg_items(a)) for a in it[2]]))
+            u = USER[it[1]]
+            args = [expand_E(arg_items(a)) for a in it[2]]
+            if len(u) > 2:      # the optional first parameter: what was given in brackets, the default otherwise
+                args = [expand_E(it[3]) if len(it) > 3 and it[3] is not None else expand_E(u[2])] + args
+            out += expand_E(subst(u[1], args))
         else:
             out.append(expand_item(it))
     return out
@@ -739,10 +760,13 @@ def g_item(rng, depth):
         for ri in range(rng.randint(1, 3)):
             rows.append([1 if rng.random() < 0.2 else 0, [g_E(rng, depth - 1, small=True, cell=True) for _ in range(ncol)]])
         return [['arr', spec, rows, rng.choice(['', '', '', 't', 'b'])]]
-    if r < 0.97:
+    if r < 0.955:
         return [['txt', rng.choice(TEXTBOX), g_T(rng, depth - 1)]]
     name = rng.choice(sorted(USER))
     n = USER[name][0]
+    if has_opt(name):
+        opt = no_brackets_deep(g_E(rng, depth - 1, small=True)) if rng.random() < 0.5 else None
+        return [['um', name, [g_arg(rng, depth, bare_ok=(rng.random() < 0.5)) for _ in range(n - 1)], opt]]
     return [['um', name, [g_arg(rng, depth, bare_ok=(rng.random() < 0.5)) for _ in range(n)]]]
 
 
@@ -757,6 +781,8 @@ def g_E(rng, depth, small=False, no_brackets=False, cell=False):
         while out and out[0] in (['c', '['], ['c', '*']):
             out = out[1:]
         out = out or [['c', 'a']]
+        if expand_E(out)[:1] in ([['c', '[']], [['c', '*']]):      # ... also when a user macro expands to such a beginning
+            out = [['c', 'a']] + out
     return out
 
 
@@ -787,7 +813,9 @@ def math_streams(rng, tier, boost):
     firsts = [['w', 'alpha'], ['w', 'zzundefined'], ['s', ','], ['s', '{'], ['s', ' '], ['cmd', 'hat', ['t', ['c', 'a']]], ['cmd', 'hat', ['t', ['w', 'alpha']]],
               ['frac', 'frac', ['t', ['c', 'a']], ['t', ['c', 'b']]], ['frac', 'frac', ['t', ['c', '1']], ['t', ['c', 'b']]],
               ['frac', 'frac', ['t', ['w', 'alpha']], ['t', ['c', 'b']]], ['sup', ['t', ['w', 'alpha']]], ['sup', ['t', ['c', 'a']]],
-              ['sqrt', None, ['t', ['c', 'x']]], ['sqrt', [['c', 'n']], ['t', ['c', 'x']]], ['um', 'eps', []], ['um', 'R', []]]
+              ['sqrt', None, ['t', ['c', 'x']]], ['sqrt', [['c', 'n']], ['t', ['c', 'x']]], ['um', 'eps', []], ['um', 'R', []],
+              ['um', 'norm', [['b', [['c', 'x']]]], None], ['um', 'norm', [['b', [['c', 'x']]]], [['c', 'p']]], ['um', 'ang', [['t', ['c', 'x']]], None],
+              ['um', 'pw', [['b', [['c', 'x']]]], None], ['um', 'pw', [['t', ['c', 'x']]], [['c', '3']]], ['um', 'seq', [['b', [['c', 'a']]]], None]]
     for a in firsts:
         for b in nexts:
             if a[0] == 'sqrt' and a[1] is None and b == ['c', '[']:
@@ -1098,3 +1126,6 @@ def sub_Es(it):
     elif k == 'um':
         for a in it[2]:
             yield arg_items(a)
+        if len(it) > 3 and it[3] is not None:
+            yield it[3]
+            yield [['um', it[1], it[2], None]]
